@@ -104,3 +104,40 @@ fn c12_ttl_cleanup_removes_an_unexpired_entry() {
   assert_eq!(cache.fetch(&1).map(|v| *v), Some(11),
     "an entry with 5 s to live is gone {elapsed:?} after its insertion (evicted_by_ttl = {})", cache.metrics().evicted_by_ttl);
 }
+
+// C16-6 (same defect as c12_ttl_cleanup_removes_an_unexpired_entry, seen from the listener): the listener is told
+// `Expired` for a value that has 5 s to live.
+#[test]
+fn c16_listener_is_told_expired_for_an_unexpired_entry() {
+  use fibre_cache::{EvictionListener, EvictionReason};
+  use std::sync::{Arc, Mutex};
+  struct L(Arc<Mutex<Vec<(u32, EvictionReason)>>>);
+  impl EvictionListener<u32, u32> for L {
+    fn on_evict(&self, key: u32, _value: Arc<u32>, reason: EvictionReason) {
+      self.0.lock().unwrap().push((key, reason));
+    }
+  }
+  let seen = Arc::new(Mutex::new(Vec::new()));
+  let cache = CacheBuilder::<u32, u32>::new()
+    .unbounded()
+    .shards(1)
+    .time_to_live(Duration::from_secs(3600))
+    .timer_tick_duration(Duration::from_secs(1))
+    .timer_wheel_size(64)
+    .janitor_tick_interval(Duration::from_secs(3600))
+    .maintenance_chance(1 << 30)
+    .eviction_listener(L(seen.clone()))
+    .build()
+    .unwrap();
+  let t0 = std::time::Instant::now();
+  cache.insert_with_ttl(1, 11, 1, Duration::from_secs(5));
+  for _ in 0..8 {
+    cache.run_maintenance();
+  }
+  std::thread::sleep(Duration::from_millis(300)); // let the notifier thread deliver
+  let elapsed = t0.elapsed();
+  assert!(elapsed < Duration::from_secs(2));
+  let got = seen.lock().unwrap().clone();
+  assert!(!got.iter().any(|(k, r)| *k == 1 && matches!(r, EvictionReason::Expired)),
+    "listener was told key 1 Expired {elapsed:?} after an insert with a 5 s TTL: {got:?}");
+}
